@@ -302,7 +302,8 @@ TraceNext ==
     /\ (~conf' => PrintT(<<"NONCONF", l + 1, ev'.name>>))
     /\ (l + 1 = Len(Trace) => PrintT(<<"END", l + 1>>))
 
-NoModSvc == <<>>
+\* the only module service the harness ever registers (scenario histories with reset.modsvc)
+NoModSvc == [msvc |-> "p3"]
 
 TraceSpec == TraceInit /\ [][TraceNext]_tvars
 
